@@ -1297,8 +1297,12 @@ static void cacheCase(pbt::Src &src, pbt::Case &c, const std::vector<pbt::Row> &
     {"_sip._udp.example.org", "_SIP._UDP.Example.Org"},
     {"a.b", "A.B", "a.B"},
   };
-  static const std::uint16_t qtypes[] = {1, 28, 33};
-  static const std::uint16_t qclasses[] = {1, 3};
+  // every type the library knows + ANY + an unknown numeric type; IN (weighted), CH, an unknown class.
+  // put, putNegative and get draw independently; get/remove additionally "follow" earlier puts.
+  static const std::uint16_t qtypes[] = {1, 28, 5, 2, 12, 15, 16, 33, 6, 35, 255, 65280};
+  static const std::size_t NT = sizeof(qtypes) / sizeof(qtypes[0]);
+  static const std::uint16_t qclasses[] = {1, 1, 1, 3, 4096};
+  static const std::size_t NC = sizeof(qclasses) / sizeof(qclasses[0]);
   static const std::uint32_t ttls[] = {0, 1, 2, 3, 5, 10, 60, 300, 3600, 86400, 0x7FFFFFFFu, 0xFFFFFFFFu};
   static const int defaults[] = {-1, 1, 2, 5, 60, 300, 3600}; // -1: default constructor (300 s)
   const std::int64_t NS = 1000000000LL;
@@ -1317,6 +1321,8 @@ static void cacheCase(pbt::Src &src, pbt::Case &c, const std::vector<pbt::Row> &
   std::int64_t offset = 0;
   bool crossed = false;
   std::size_t lastGroup = 0;
+  std::set<std::uint16_t> otherTypeOf; // stored types for which a get of ANOTHER type (same name, class; no exact entry) was issued while fresh
+  int otherClassGets = 0;
   std::set<CKey> displaced; // keys whose live entry was followed by a TTL-0 answer
   pbt::Fmt hist;
   hist << "default=" << (defCfg < 0 ? std::string("ctor()") : std::to_string(defCfg) + "s") << ":";
@@ -1328,16 +1334,27 @@ static void cacheCase(pbt::Src &src, pbt::Case &c, const std::vector<pbt::Row> &
   auto question = [&](const pbt::Row &op, CKey &key, std::string &text, bool follow = false)
   {
     std::size_t group = (std::size_t)op[1] % nameVariants.size();
-    key.type = qtypes[(std::size_t)op[2] % 3];
-    key.cls = qclasses[(std::size_t)(op[2] / 4) % 8 == 0 ? 1 : 0];
+    key.type = qtypes[(std::size_t)op[2] % NT];
+    key.cls = qclasses[(std::size_t)(op[2] / NT) % NC];
     if (follow && !puts.empty() && op[3] % 4 != 0)
     {
       const PutRec &p = puts[(std::size_t)(op[3] / 4) % puts.size()];
       group = p.group;
       key.type = p.key.type;
       key.cls = p.key.cls;
-      if (op[4] % 8 == 1) key.type = qtypes[(std::size_t)(op[4] / 8) % 3];
-      if (op[4] % 8 == 2) key.cls = key.cls == 1 ? 3 : 1;
+      if (op[4] % 4 == 1) // same name and class, ANOTHER type (any of them)
+      {
+        std::size_t k = (std::size_t)(op[4] / 4) % NT;
+        if (qtypes[k] == key.type) k = (k + 1) % NT;
+        key.type = qtypes[k];
+      }
+      if (op[4] % 4 == 2) // same name and type, ANOTHER class
+      {
+        static const std::uint16_t distinct[] = {1, 3, 4096};
+        std::size_t k = (std::size_t)(op[4] / 4) % 3;
+        if (distinct[k] == key.cls) k = (k + 1) % 3;
+        key.cls = distinct[k];
+      }
     }
     const auto &vars = nameVariants[group];
     text = vars[(std::size_t)(op[1] / 8) % vars.size()];
@@ -1459,6 +1476,15 @@ static void cacheCase(pbt::Src &src, pbt::Case &c, const std::vector<pbt::Row> &
       std::int64_t tAfter = hclock::now();
       ++gets;
       auto it = latest.find(key);
+      if (it == latest.end())
+        for (auto &kv : latest)
+        {
+          if (kv.first.name != key.name) continue;
+          const PutRec &o = puts[(std::size_t)kv.second];
+          if (tBefore >= o.tAfter + (std::int64_t)o.ttl * NS) continue; // not servable any more
+          if (kv.first.cls == key.cls && kv.first.type != key.type) otherTypeOf.insert(kv.first.type);
+          if (kv.first.type == key.type && kv.first.cls != key.cls) ++otherClassGets;
+        }
       const PutRec *live = it != latest.end() ? &puts[(std::size_t)it->second] : nullptr;
       bool liveExpiredForSure = live && tBefore >= live->tAfter + (std::int64_t)live->ttl * NS;
       bool liveFreshForSure = live && tAfter < live->tBefore + (std::int64_t)live->ttl * NS;
@@ -1566,6 +1592,8 @@ static void cacheCase(pbt::Src &src, pbt::Case &c, const std::vector<pbt::Row> &
   }
   c.describe(hist);
   if (gets) c.label("history with get");
+  for (auto t : otherTypeOf) c.label("get of another type (no exact entry) while " + typeName(t) + " is cached for the name");
+  if (otherClassGets) c.label("get of another class while the type is cached for the name");
   if (hitsFresh) c.label("fresh hit observed");
   if (missFresh) c.label("miss although the model entry was fresh: TTL 2^32-1 read as 'no records' (allowed)");
   if (missDisplaced) c.label("miss although the model entry was fresh: displaced by a later TTL-0 answer (allowed)");
@@ -1797,6 +1825,16 @@ PBT_REGRESSION(cache_negative_ttl0_not_served) // finding C19-4, negative side: 
   NoSrc ns;
   cacheCase(ns, c, {op(30, 0, 0, 0, 0), op(50, 0, 0)}, 0);                  // putNegative(explicit 0); get
   if (!c.failed()) cacheCase(ns, c, {op(30, 1, 0, 1, 0 + 16 * 7), op(50, 1, 0)}, 0); // SOA minimum 0, ttl 300; get
+}
+PBT_REGRESSION(cache_cname_entry_not_served_for_other_types) // seeded change C19-H: "RFC 1034 3.6.2" CNAME fallback in get()
+{
+  NoSrc ns;
+  // type index: 0 A, 1 AAAA, 2 CNAME, 6 TXT, 7 SRV; ttls[7] = 300 s
+  // put(example.com CNAME IN, one record of 300 s); get A / AAAA / TXT / SRV under other spellings must not be served
+  // that entry; get CNAME may hit
+  cacheCase(ns, c, {op(0, 0, 2, 1, 7), op(50, 8, 0), op(50, 16, 1), op(50, 0, 6), op(50, 24, 7), op(50, 8, 2)}, 0);
+  // the same for a negative CNAME entry (explicit negative TTL 300 s)
+  if (!c.failed()) cacheCase(ns, c, {op(30, 1, 2, 0, 7), op(50, 9, 0), op(50, 17, 1), op(50, 1, 6), op(50, 9, 2)}, 0);
 }
 PBT_REGRESSION(cache_expiry_at_boundary)
 {
